@@ -393,10 +393,62 @@ func ruleEF6() Rule {
 						}
 					}
 					key := f.Name + "|Error{Name:" + exprStrOrNone(name) + ",Pos:" + exprStrOrNone(pos) + "}"
-					nameOK := name != nil && (fieldSel(info, name, "parser", "lexer", "name") || fieldSel(info, name, "parser", "Error", "Name"))
-					posOK := pos != nil
-					if cl2, ok := pos.(*ast.CompositeLit); ok && len(cl2.Elts) == 0 {
-						posOK = false
+					nameIsOK := func(info *types.Info, e ast.Expr) bool {
+						return e != nil && (fieldSel(info, e, "parser", "lexer", "name") || fieldSel(info, e, "parser", "Error", "Name"))
+					}
+					posIsOK := func(e ast.Expr) bool {
+						if e == nil {
+							return false
+						}
+						if cl2, ok := e.(*ast.CompositeLit); ok && len(cl2.Elts) == 0 {
+							return false
+						}
+						return true
+					}
+					nameOK := nameIsOK(info, name)
+					posOK := posIsOK(pos)
+					// a constructor: Name and/or Pos are parameters of f; the obligation is
+					// decided at every call site with the arguments put in their place
+					paramIdx := func(e ast.Expr) int {
+						id, ok := ast.Unparen(e).(*ast.Ident)
+						if !ok || e == nil || f.Type == nil || f.Type.Params == nil {
+							return -1
+						}
+						k := 0
+						for _, fld := range f.Type.Params.List {
+							for _, nm := range fld.Names {
+								if info.Defs[nm] == info.Uses[id] && info.Uses[id] != nil {
+									return k
+								}
+								k++
+							}
+						}
+						return -1
+					}
+					if ni, pi := -1, -1; name != nil && pos != nil {
+						if !nameOK {
+							ni = paramIdx(name)
+						}
+						pi = paramIdx(pos)
+						if (ni >= 0 || pi >= 0) && (nameOK || ni >= 0) && f.Decl != nil {
+							if calls, complete := c.callSitesOf(f); complete && len(calls) > 0 {
+								for _, cs := range calls {
+									ci := cs.in.Info()
+									k2 := fmt.Sprintf("%s|%s(…) in %s", f.Name, f.Short, cs.in.Short)
+									okN := nameOK || (ni < len(cs.call.Args) && nameIsOK(ci, cs.call.Args[ni]))
+									okP := pi < 0 && posOK || (pi >= 0 && pi < len(cs.call.Args) && posIsOK(cs.call.Args[pi]))
+									switch {
+									case !okN:
+										rr.Bad(cs.in, k2, cs.call.Pos(), "the syntax error built by "+f.Short+" does not get the caller's name here")
+									case !okP:
+										rr.Bad(cs.in, k2, cs.call.Pos(), "the syntax error built by "+f.Short+" gets no position here")
+									default:
+										rr.OK(cs.in, k2, cs.call.Pos(), "located", "name and position handed to the constructor come from the lexer / a recorded token")
+									}
+								}
+								return true
+							}
+						}
 					}
 					switch {
 					case !nameOK:
